@@ -29,6 +29,9 @@ SYMBOLIC = (
     "n",
     "{h.k}",  # an attribute of a MUTABLE argument: must be read at every check, never cached
     "{h.k}+a",
+    "{len(extra)}+1",  # *extra / **opts / the defaulted kw are arguments of the call too - also when nothing was passed for them
+    "a+{len(opts)}",
+    "{kw}",
 )
 
 
